@@ -73,6 +73,7 @@ fn cmd_stream(a: &Args) {
         small: !a.flag("big"),
         max_frames: a.num("frames", 3) as usize,
         max_cost: a.num("cost", if thorough { 4_000_000 } else { 260_000 }),
+        bigshare: a.num("bigshare", 0) as usize,
     };
     let mut cases = stream::gen_cases(&profile, seed, &budget);
     if a.flag("sweep") {
